@@ -135,7 +135,7 @@ def eval_point(pt, R):
             full = (p, a, rho, k)
             prev_rho = rho
         else:
-            R.check(np.array_equal(k, full[3][:p]), 'nest', feats, ptp, k, full[3][:p], 'order-q reflection coefficients are not the first q of the order-p ones')
+            R.check(close(k, full[3][:p], 1e-12, 1e-14), 'nest', feats, ptp, k, full[3][:p], 'order-q reflection coefficients are not the first q of the order-p ones')
         # variance non increasing in the order (we iterate downwards)
         if p < pmax and p + 1 <= pgood and 'rho_above' in locals():
             R.check(rho_above <= rho * (1 + 1e-12), 'rho_monotone', feats, ptp, [rho, rho_above], 'rho(p+1) <= rho(p)', 'variance increases with the order')
@@ -163,14 +163,14 @@ def eval_point(pt, R):
                     continue
                 R.calls()
                 aq, rq, kq = spectrum.arburg(x, qsel)
-                R.check(np.array_equal(ac, np.asarray(aq)) and rc_ == rq and np.array_equal(kc, np.asarray(kq)), 'criteria', dict(feats, crit=crit), ptc,
+                R.check(close(ac, np.asarray(aq), 1e-12, 1e-14) and abs(rc_ - rq) <= 1e-12 * abs(rq) and close(kc, np.asarray(kq), 1e-12, 1e-14), 'criteria', dict(feats, crit=crit), ptc,
                         [ac, rc_], [aq, rq], 'result with a criterion is not exactly the Burg model of order len(a)', outs=(ac, crit))
         if p == pmax or p == 1 or 'p' in pt:
             R.calls()
             try:
                 o = spectrum.pburg(x, p)
                 o()
-                R.check(np.array_equal(np.asarray(o.ar), a) and o.rho == rho and np.array_equal(np.asarray(o.reflection), k), 'pburg', feats, ptp,
+                R.check(close(np.asarray(o.ar), a, 1e-12, 1e-14) and abs(o.rho - rho) <= 1e-12 * abs(rho) and close(np.asarray(o.reflection), k, 1e-12, 1e-14), 'pburg', feats, ptp,
                         [o.ar, o.rho], [a, rho], 'pburg.ar/.rho/.reflection differ from arburg')
             except Exception as e:
                 R.viol('pburg', dict(feats, exc=type(e).__name__), ptp, repr(e), None, 'pburg raised')
